@@ -58,6 +58,7 @@ type RunConfig struct {
 	Faults      []string       `json:"faults,omitempty"`
 	Oracles     []string       `json:"oracles,omitempty"` // property ids whose oracles are on
 	FinalStop   bool           `json:"final_stop"`        // the action list ends with an explicit stop
+	NoPeek      bool           `json:"no_peek,omitempty"` // never read go-upf's internal state (race-detector runs)
 }
 
 // Violation is what a run reports.
@@ -205,6 +206,10 @@ func (s *Sim) alias(p string) string {
 	case "C15":
 		if p == "C10" || p == "C03" || p == "C17" {
 			return "C15"
+		}
+	case "C17":
+		if p == "C10" || p == "C09" {
+			return "C17"
 		}
 	case "C14":
 		if p == "C13" {
@@ -464,7 +469,17 @@ func (s *Sim) boot() {
 	s.logEvent("booted driver=%s", s.cfg.Driver)
 }
 
+func (s *Sim) peek() pfcp.VerifState {
+	if s.cfg.NoPeek {
+		return pfcp.VerifState{}
+	}
+	return s.srv.VerifState()
+}
+
 func (s *Sim) perioGroups() map[time.Duration]int {
+	if s.cfg.NoPeek {
+		return nil
+	}
 	if g, ok := s.drv.(*forwarder.Gtp5g); ok && g.VerifPerio() != nil {
 		return g.VerifPerio().VerifGroups()
 	}
@@ -478,6 +493,20 @@ func (s *Sim) stop1() {
 	}
 	s.stopped1 = true
 	s.logEvent("stop1")
+	pending := 0
+	for _, rx := range s.model.rx {
+		if s.since()-rx.T0 < s.model.window() {
+			pending++
+		}
+	}
+	for _, u := range s.model.ups {
+		if !u.Answered && !s.model.abandoned(u, s.since()) {
+			pending++
+		}
+	}
+	if pending > 0 {
+		s.probe("stop.with.pending", 1)
+	}
 	s.srv.Stop()
 	s.settle()
 }
